@@ -38,6 +38,8 @@ type Case struct {
 	Mode      uint      `json:"mode,omitempty"`      // expand: ExpMode
 	DFS       int       `json:"dfs,omitempty"`       // >0: walk ALL schedule tapes of this case depth-first (at most this many runs) instead of the planned schedules
 	Bystander bool      `json:"bystander,omitempty"` // parse/stream with a reader source: after the last call, an unrelated ParseCommands call from a plain io.Reader is made before the reader is looked at again
+	SrcName   string    `json:"src_name,omitempty"`  // the name argument of ParseCommands ("" = "sim")
+	Inherit   bool      `json:"inherit,omitempty"`   // history: the environment keeps what it inherited from the process (HOME, PATH, IFS) and a sibling environment created at the same time is watched
 }
 
 type HereDoc struct {
@@ -237,6 +239,17 @@ func ExhaustiveSpaces(id, tier string) map[string]int {
 		return f(tier)
 	}
 	return nil
+}
+
+// SrcNames: name arguments handed to ParseCommands (names are data: a name that looks like a format
+// string, is empty or holds odd characters must make no difference to what is returned as the error).
+var SrcNames = []string{"", "", "my%20scripts/run.sh", "100%.sh", "%s", "%!d(x)", "a b\tc", "é/日本.sh", "%w"}
+
+func (c *Case) srcName() string {
+	if c.SrcName == "" {
+		return "sim"
+	}
+	return c.SrcName
 }
 
 // Tick is called by long sequential checks (C18) to tell the worker's watchdog that they are alive.
